@@ -285,13 +285,13 @@ func uncrossAmbig(l Loc, origins []int) Loc {
 }
 
 func c04Gen(t *rapid.T) c04Case {
-	L := rapid.IntRange(1, 14).Draw(t, "L")
+	L := drawLen(t, 1, 14, "L")
 	n := rapid.IntRange(-3*L, 3*L).Draw(t, "n")
 	b := rapid.IntRange(-3*L, 3*L).Draw(t, "b")
 	c := c04Case{L: L, N: n, B: b}
 	o := newOrigin(L, n)
-	cfg := locCfg{L: L, Hot: hotAround(L, o, 0), MaxDepth: 3, MaxParts: 4, Ambig: true, Sites: true}
-	c.Feats = genFeats(t, cfg, rapid.IntRange(0, 4).Draw(t, "nfeat"), "f", true)
+	cfg := locCfg{L: L, Hot: hotAround(L, o, 0), MaxDepth: 3, MaxParts: scopeParts(4), Ambig: true, Sites: true}
+	c.Feats = genFeats(t, cfg, drawCount(t, 0, 4, 9, "nfeat"), "f", true)
 	origins := []int{o, newOrigin(L, n+b)}
 	for i := range c.Feats {
 		fixed := uncrossAmbig(c.Feats[i].Loc, origins)
@@ -305,6 +305,10 @@ func TestC04(t *testing.T) {
 	st := newStats("C04")
 	defer st.flush()
 	rapidPart(t, c04Prop, st, "rapid", pick(30000, 250000), c04Gen)
+	if t.Failed() {
+		return
+	}
+	rapidLargePart(t, c04Prop, st, pick(1500, 20000), c04Gen)
 	if t.Failed() {
 		return
 	}
